@@ -196,6 +196,42 @@ def threshold_history(rng, hid):
 # ---------------------------------------------------------------------------------------------
 # spec -> impl: histories of the bounded model, concretised
 
+def write_cfg(name, naddr, steps, replay):
+    body = f"""SPECIFICATION Spec
+CONSTANTS
+  NAddr = {naddr}
+  MaxSteps = {steps}
+  MaxT = 2
+  PrintReplay = {'TRUE' if replay else 'FALSE'}
+INVARIANT Inv
+INVARIANT Replay
+VIEW View
+CHECK_DEADLOCK FALSE
+"""
+    path = os.path.join(core.SPEC, name + ".cfg")
+    if not os.path.exists(path) or open(path).read() != body:
+        open(path, "w").write(body)
+
+
+def step_d(tier, rep):
+    """invariants of C12-C15 on the bounded model: exhaustive to depth 5 (quick) / 6 (thorough), plus in the thorough tier
+    random walks of depth 40 over three addresses"""
+    depth = 5 if tier == "quick" else 6
+    cfg = f"MC_Tracker_d{depth}"
+    write_cfg(cfg, 2, depth, False)
+    res = core.run_mc("MC_Tracker", cfg=cfg, workers=8, timeout=3400, xmx="12g")
+    rep.add_model(res, cfg)
+    if not res["ok"]:
+        raise core.ToolError(f"MC_Tracker violated {res['violated']}: the tracking rules themselves are inconsistent")
+    if tier == "thorough":
+        cfg = "MC_Tracker_walk"
+        write_cfg(cfg, 3, 40, False)
+        res = core.run_mc("MC_Tracker", cfg=cfg, workers=8, timeout=3400, extra_args=["-simulate", "num=20000", "-depth", "41"])
+        rep.add_model(res, cfg + " (random walks)")
+        if not res["ok"]:
+            raise core.ToolError(f"MC_Tracker random walks violated {res['violated']}")
+
+
 def model_histories(tier, rep):
     """one history per distinct state of MC_Tracker at the depth bound (printed by its Replay invariant)"""
     depth = 3 if tier == "quick" else 4
@@ -317,6 +353,7 @@ def run(prop, tier, seed, rep, std=True):
     rng = random.Random(seed * 1000003 + 12)
     hx = core.build_hx("std")
     hists = []
+    step_d(tier, rep)
     # spec -> impl
     mh = model_histories(tier, rep)
     take = rng.sample(mh, min(len(mh), 6000 if tier == "quick" else 40000))
